@@ -723,3 +723,77 @@ fn c03_reader_hb_anystate(7) {
   rig.finish();
 }
 }
+
+// ------------------------------------------------------------------ partially received fragmented sample
+static FRAG_BYTES: [u8; 12] = [0, 1, 0, 0, 0xA1, 0xA2, 0xA3, 0xA4, 0xB1, 0xB2, 0xB3, 0xB4]; // CDR_LE header + 8 bytes
+
+pub(crate) fn datafrag(w: u8, sn: i64, frag: u32) -> DataFrag {
+  // one 4-byte fragment (number `frag` in 1..=3) of a 12-byte sample
+  let from = ((frag - 1) * 4) as usize;
+  DataFrag {
+    reader_id: EntityId::UNKNOWN,
+    writer_id: writer_eid(w),
+    writer_sn: SequenceNumber::new(sn),
+    fragment_starting_num: FragmentNumber::new(frag),
+    fragments_in_submessage: 1,
+    data_size: 12,
+    fragment_size: 4,
+    inline_qos: None,
+    serialized_payload: Bytes::from_static(&FRAG_BYTES).slice(from..from + 4),
+  }
+}
+
+reader_harness! {
+/// C03, fragments: SN 1 of 3 advertised samples has arrived only in part (ONE of its three
+/// fragments, chosen symbolically), SNs 2..3 not at all.  The answer to HEARTBEAT(1..3) must not
+/// acknowledge SN 1 (ACKNACK base <= 1), must request the wholly missing SNs by ACKNACK, and must
+/// request exactly the two missing fragments of SN 1 by NACKFRAG, with growing counts.
+fn c03_reader_partial_fragment_hb(7) {
+  let mut rig = make_rig(reliable_qos(), false, reader_guid());
+  rig.match_writer(1, &reliable_qos());
+  let got = vk::range_u32(1, 3);
+  let st = rig.mr_state(1, None);
+  let flags = BitFlags::<DATAFRAG_Flags>::from_flag(DATAFRAG_Flags::Endianness);
+  match got {
+    1 => {
+      let d = datafrag(1, 1, 1);
+      rig.reader.handle_datafrag_msg(&d, flags, &st);
+      core::mem::forget(d);
+    }
+    2 => {
+      let d = datafrag(1, 1, 2);
+      rig.reader.handle_datafrag_msg(&d, flags, &st);
+      core::mem::forget(d);
+    }
+    _ => {
+      let d = datafrag(1, 1, 3);
+      rig.reader.handle_datafrag_msg(&d, flags, &st);
+      core::mem::forget(d);
+    }
+  }
+  let s0 = rig.take_sent();
+  assert!(s0.n_acks == 0 && s0.n_nackfrags == 0, "DATAFRAG answered");
+  let hb = heartbeat(1, 1, 3, 1);
+  rig.reader.handle_heartbeat_msg(&hb, false, &st);
+  let sent = rig.take_sent();
+  assert!(sent.n_acks == 1, "HEARTBEAT not answered by exactly one ACKNACK");
+  let a = sent.acks[0].unwrap();
+  assert!(a.base >= 1 && a.base <= 1, "ACKNACK acknowledges a sample of which only one fragment arrived");
+  assert!(a.requests(2 - a.base) && a.requests(3 - a.base), "wholly missing samples not requested");
+  assert!(!a.requests(1 - a.base) || sent.n_nackfrags == 0, "partially received sample requested twice");
+  assert!(sent.n_nackfrags == 1, "no NACKFRAG for the partially received sample");
+  let nf = sent.nackfrags[0].unwrap();
+  assert!(nf.writer_sn == 1);
+  // exactly the two fragments that did not arrive
+  let mut f = 1u32;
+  while f <= 3 {
+    let requested = f >= nf.base && nf.requests(f - nf.base);
+    assert!(requested == (f != got), "NACKFRAG does not name exactly the missing fragments");
+    f += 1;
+  }
+  assert!(nf.count != a.count, "ACKNACK and NACKFRAG share a count");
+  vk_cover!(got == 2, "middle fragment arrived");
+  core::mem::forget(st);
+  rig.finish();
+}
+}
